@@ -1,6 +1,8 @@
 package vc
 
 import (
+	"strings"
+
 	"golang.org/x/tools/go/ssa"
 )
 
@@ -134,6 +136,32 @@ func (r *FnRun) tryMergeIf(b *ssa.BasicBlock, c Term, st *State) bool {
 	}
 	addGuarded(s1, c)
 	addGuarded(s2, Not(c))
+	for k := range s1.ghost {
+		if !strings.HasPrefix(k, "ghost:") {
+			continue
+		}
+		v1, ok1 := s1.ghost[k].(Term)
+		v2, ok2 := s2.ghost[k].(Term)
+		if !ok2 {
+			v2 = BVInt(0, 32, false)
+		}
+		if ok1 && v1.S != v2.S {
+			m.ghost[k] = Ite(c, v1, v2)
+		} else if ok1 {
+			m.ghost[k] = v1
+		}
+	}
+	for k := range s2.ghost {
+		if !strings.HasPrefix(k, "ghost:") {
+			continue
+		}
+		if _, in1 := s1.ghost[k]; !in1 {
+			m.ghost[k] = Ite(c, BVInt(0, 32, false), s2.ghost[k].(Term))
+		}
+	}
+	if s1.csAcq != s2.csAcq || s1.csRel != s2.csRel {
+		panic(unsupported("critical-section snapshots differ between merged branches"))
+	}
 	for a := range m.cells {
 		m.cells[a] = r.mergeVal(m, c, s1.cells[a], s2.cells[a])
 	}
